@@ -26,17 +26,20 @@ import (
 	"io"
 	"os"
 	"os/exec"
+	"os/signal"
 	"path/filepath"
 	"regexp"
 	"sort"
 	"strconv"
 	"strings"
+	"syscall"
 	"testing"
 	"testing/synctest"
 	"time"
 
 	"github.com/mgtv-tech/redis-GunYu/config"
 	"github.com/mgtv-tech/redis-GunYu/pkg/common"
+	"github.com/mgtv-tech/redis-GunYu/pkg/digest"
 	"github.com/mgtv-tech/redis-GunYu/pkg/vfutil"
 )
 
@@ -70,7 +73,29 @@ func c08Snap(salt uint64, left, size int64) []byte {
 	for i := range b {
 		b[i] = byte(c08Mix(salt ^ uint64(left)*31 ^ uint64(size)*131 ^ uint64(i)*0x1234567))
 	}
+	// two thirds of the snapshots end with the RDB checksum footer (CRC64 of all
+	// before, little endian), so that a verifying reader accepts them
+	if size >= 9 && (salt+uint64(left)+uint64(size))%3 != 0 {
+		c := digest.New()
+		c.Write(b[:size-8])
+		binary.LittleEndian.PutUint64(b[size-8:], c.Sum64())
+	}
 	return b
+}
+
+func c08FooterOk(b []byte) bool {
+	if len(b) <= 8 {
+		return true
+	}
+	c := digest.New()
+	c.Write(b[:len(b)-8])
+	return binary.LittleEndian.Uint64(b[len(b)-8:]) == c.Sum64()
+}
+
+func c08Crc(b []byte) uint64 {
+	c := digest.New()
+	c.Write(b)
+	return c.Sum64()
 }
 
 // ---------------------------------------------------------------- child: run the real writers
@@ -162,6 +187,33 @@ func TestVerifC08Child(t *testing.T) {
 		case "daofc":
 			aofW.Close()
 			aofW = nil
+		case "daofx":
+			// the disk fills up under the stream writer: only the first k bytes of the
+			// chunk reach the file (RLIMIT_FSIZE stands for ENOSPC: write returns k,
+			// then fails), the writer ends as ingest() ends it
+			k := num(1)
+			signal.Ignore(syscall.SIGXFSZ)
+			var old syscall.Rlimit
+			syscall.Getrlimit(syscall.RLIMIT_FSIZE, &old)
+			lim := old
+			lim.Cur = uint64(aofW.filesize + k)
+			syscall.Setrlimit(syscall.RLIMIT_FSIZE, &lim)
+			err := aofW.write(vfutil.UnHex(f[2]))
+			syscall.Setrlimit(syscall.RLIMIT_FSIZE, &old)
+			if err == nil {
+				os.WriteFile(filepath.Join(root, "violation.txt"), []byte("fault-not-injected|the short write was not injected"), 0o644)
+			}
+			// at RUNTIME, before any death: the range must not claim bytes that are in no file
+			if fi, e := os.Stat(aofW.filepath); e == nil {
+				_, r := st.GetOffsetRange()
+				if held := aofW.left + fi.Size() - headerSize; r != held {
+					os.WriteFile(filepath.Join(root, "violation.txt"), []byte(fmt.Sprintf(
+						"range-claims-unwritten-bytes|after a short write (%d of %d bytes) the cache reports its end at %d, the files hold bytes up to %d",
+						k, len(vfutil.UnHex(f[2])), r, held)), 0o644)
+				}
+			}
+			aofW.Close()
+			aofW = nil
 		case "dgc":
 			st.VerifGcLog()
 		}
@@ -247,6 +299,7 @@ var (
 	c08LineRe  = regexp.MustCompile(`^(\d+)\s+(.*)$`)
 	c08FdRe    = regexp.MustCompile(`^(\d+)<([^>]*)>`)
 	c08RetFdRe = regexp.MustCompile(`=\s*(\d+)<([^>]*)>\s*$`)
+	c08RetNRe  = regexp.MustCompile(`\)\s*=\s*(\d+)\s*$`)
 	c08OkRe    = regexp.MustCompile(`\)\s*=\s*\d+(<[^>]*>)?\s*$`)
 )
 
@@ -365,6 +418,11 @@ func c08ParseTrace(path, dir string) ([]c08Op, error) {
 				continue
 			}
 			data := strs[0]
+			if rm := c08RetNRe.FindStringSubmatch(rest); rm != nil {
+				if n, _ := strconv.Atoi(rm[1]); n < len(data) {
+					data = data[:n] // short write
+				}
+			}
 			if st.off == sizes[st.name] {
 				ops = append(ops, c08Op{kind: "append", name: st.name, data: data})
 				sizes[st.name] += int64(len(data))
@@ -464,12 +522,15 @@ func c08ReadAll(rd *Reader, from, right int64) ([]byte, string) {
 }
 
 type c08Parent struct {
-	s    *vfutil.Session
-	r    *vfutil.Rand
-	tmp  string
-	n    int
-	salt uint64
-	snap map[string][]byte // name of every snapshot completely written -> bytes
+	s           *vfutil.Session
+	r           *vfutil.Rand
+	tmp         string
+	n           int
+	salt        uint64
+	snap        map[string][]byte // name of every snapshot completely written -> bytes
+	big         bool              // production-size script: sample the crash instants
+	alteredSnap string            // name of the snapshot file altered in the image being re-opened
+	opIdx       int
 }
 
 // reopen materialises the image, opens it with the real Storer and records
@@ -481,6 +542,7 @@ func (p *c08Parent) reopen(im c08Image, verify bool, what string, script string)
 // reopenAlt: alteredLeft >= 0 names the segment whose file was altered (a
 // verifying reader must not deliver a single byte of it).
 func (p *c08Parent) reopenAlt(im c08Image, verify bool, what string, script string, alteredLeft, alteredRight int64) {
+	alteredSnap := p.alteredSnap
 	p.n++
 	root := filepath.Join(p.tmp, fmt.Sprintf("i%d", p.n))
 	dir := filepath.Join(root, c08RunId)
@@ -541,7 +603,9 @@ func (p *c08Parent) reopenAlt(im c08Image, verify bool, what string, script stri
 		name := fmt.Sprintf("%d_%d.rdb", rl, rs)
 		want, ok := p.snap[name]
 		got, have := im[name]
-		if !ok || !have || string(got) != string(want) || int64(len(got)) != rs {
+		if p.alteredSnap == name {
+			// deliberately altered: offered (by name), must be refused by verification
+		} else if !ok || !have || string(got) != string(want) || int64(len(got)) != rs {
 			p.s.Violate("incomplete-snapshot-offered", fmt.Sprintf("GetRdb()=(%d,%d) but the image holds %d bytes of it (completely written: %v)", rl, rs, len(got), ok), replay)
 		}
 		p.s.Count("mon_snapshot_offered")
@@ -560,9 +624,30 @@ func (p *c08Parent) reopenAlt(im c08Image, verify bool, what string, script stri
 			continue
 		}
 		if !rd.IsAof() {
-			lines = append(lines, fmt.Sprintf("read %d rdb %d %d", o, rd.Left(), rd.Size()))
+			// read the snapshot through the real RdbReader, to its announced size
+			var sb []byte
+			buf := make([]byte, 8192)
+			for int64(len(sb)) < rd.Size() {
+				if rem := rd.Size() - int64(len(sb)); rem < int64(len(buf)) {
+					buf = buf[:rem]
+				}
+				n, err := rd.rdb.read(buf)
+				sb = append(sb, buf[:n]...)
+				if err != nil || n == 0 {
+					break
+				}
+			}
+			lines = append(lines, fmt.Sprintf("read %d rdb %d %d got %d crc %d", o, rd.Left(), rd.Size(), len(sb), c08Crc(sb)))
 			rd.rdb.Close()
 			rd.Close()
+			name := fmt.Sprintf("%d_%d.rdb", rd.Left(), rd.Size())
+			if want, ok := p.snap[name]; !ok || string(want) != string(sb) {
+				p.s.Violate("snapshot-bytes-wrong", fmt.Sprintf("snapshot reader for %s delivered %d bytes that are not the %d bytes received (completely written: %v)", name, len(sb), len(want), ok), replay)
+			}
+			if verify && alteredSnap != "" && name == alteredSnap {
+				p.s.Violate("altered-snapshot-accepted", fmt.Sprintf("%s was altered (%s) but a verifying reader accepted it", name, what), replay)
+			}
+			p.s.Add("mon_snapshot_bytes_checked", len(sb))
 			continue
 		}
 		data, end := c08ReadAll(rd, o, r)
@@ -586,6 +671,10 @@ func (p *c08Parent) reopenAlt(im c08Image, verify bool, what string, script stri
 			p.s.Violate("range-not-contiguous", fmt.Sprintf("range [%d,%d] reported, reading from %d gave %d bytes and ended with %s", l, r, o, len(data), end), replay)
 		}
 	}
+	for i := range lines {
+		lines[i] = fmt.Sprintf("#%d %s", p.opIdx, lines[i])
+	}
+	p.opIdx++
 	p.s.Op(fmt.Sprintf("c8r %d %s %s", v, vfDash(strings.Join(ps, ",")), im.String()), lines...)
 	p.s.Count("images_" + what)
 	if len(im) >= 2 {
@@ -599,6 +688,40 @@ type c08Script struct {
 	ops []string
 }
 
+// genBigScript: production-size pieces — a snapshot of more than 3 x 8 KiB with
+// a checksum footer, segments of more than 3 x 4 KiB (every 4096/8192-byte loop of
+// the code runs several iterations), closed segments and the snapshot in the final image.
+func (p *c08Parent) genBigScript(r *vfutil.Rand) string {
+	logSize := int64(12500 + r.Intn(4000))
+	ops := []string{fmt.Sprintf("dnew %d 0", logSize), "dsetrun " + c08RunId}
+	p.snap = map[string][]byte{}
+	left := int64(1000 + r.Intn(9000))
+	size := int64(25000 + r.Intn(9000))
+	for (p.salt+uint64(left)+uint64(size))%3 == 0 {
+		size++
+	}
+	b := c08Snap(p.salt, left, size)
+	ops = append(ops, fmt.Sprintf("drdbw %d %d", left, size))
+	for at := int64(0); at < size; {
+		c := int64(2000 + r.Intn(6000))
+		if at+c > size {
+			c = size - at
+		}
+		ops = append(ops, "drdba "+vfutil.Hex(b[at:at+c]))
+		at += c
+	}
+	p.snap[fmt.Sprintf("%d_%d.rdb", left, size)] = b
+	ops = append(ops, fmt.Sprintf("daofw %d", left))
+	right := left
+	for i := 0; i < 7; i++ {
+		c := 3000 + r.Intn(3000)
+		ops = append(ops, "daofa "+vfutil.Hex(c08SrcSeg(p.salt, right, c)))
+		right += int64(c)
+	}
+	ops = append(ops, "daofc")
+	return strings.Join(ops, " ; ")
+}
+
 func (p *c08Parent) genScript(r *vfutil.Rand) (string, int64, int64) {
 	logSize := int64(vfutil.Pick(r, []int{24, 32, 48, 64}))
 	maxSize := logSize * int64(2+r.Intn(4))
@@ -610,6 +733,7 @@ func (p *c08Parent) genScript(r *vfutil.Rand) (string, int64, int64) {
 	var right int64 = -1 // end of the held stream; -1: nothing held
 	var snapLeft int64 = -1
 	aofOpen := false
+	var fill int64 // data bytes in the live segment
 	n := 6 + r.Intn(18)
 	for i := 0; i < n; i++ {
 		switch k := r.Intn(100); {
@@ -675,10 +799,27 @@ func (p *c08Parent) genScript(r *vfutil.Rand) (string, int64, int64) {
 				ops = append(ops, fmt.Sprintf("daofw %d", off))
 				right = off
 				aofOpen = true
+				fill = 0
 			}
 			c := 1 + r.Intn(int(logSize))
+			if room := logSize - headerSize - fill; c >= 2 && room >= 1 && r.Chance(1, 7) {
+				// short write (the disk fills up): k < c bytes reach the file, no rotation
+				k := int64(1 + r.Intn(c-1))
+				if k > room {
+					k = room
+				}
+				ops = append(ops, fmt.Sprintf("daofx %d %s", k, vfutil.Hex(c08SrcSeg(p.salt, right, c))))
+				right += k
+				aofOpen = false
+				p.s.Count("aof_short_writes")
+				break
+			}
 			ops = append(ops, "daofa "+vfutil.Hex(c08SrcSeg(p.salt, right, c)))
 			right += int64(c)
+			fill += int64(c)
+			if headerSize+fill > logSize {
+				fill = 0
+			}
 		case k < 80:
 			if aofOpen {
 				ops = append(ops, "daofc")
@@ -719,6 +860,10 @@ func TestVerifC08(t *testing.T) {
 			s.Violate("child-failed", fmt.Sprintf("%v: %s", err, out), map[string]interface{}{"script": script})
 			return
 		}
+		if b, err := os.ReadFile(filepath.Join(root, "violation.txt")); err == nil {
+			kv := strings.SplitN(string(b), "|", 2)
+			s.Violate(kv[0], kv[1], map[string]interface{}{"script": script})
+		}
 		ops, err := c08ParseTrace(trace, filepath.Join(root, c08RunId))
 		if err != nil {
 			s.Violate("trace-unparsed", err.Error(), map[string]interface{}{"script": script})
@@ -732,6 +877,10 @@ func TestVerifC08(t *testing.T) {
 			f := strings.Fields(op)
 			if len(f) == 2 && (f[0] == "drdba" || f[0] == "daofa") {
 				fed += len(vfutil.UnHex(f[1]))
+			}
+			if len(f) == 3 && f[0] == "daofx" {
+				k, _ := strconv.Atoi(f[1])
+				fed += k
 			}
 		}
 		for _, o := range ops {
@@ -755,7 +904,12 @@ func TestVerifC08(t *testing.T) {
 		for i, o := range ops {
 			lines[i] = o.String()
 		}
-		s.Op(fmt.Sprintf("c8w %d %s", salt, script), append(lines, "end")...)
+		lines = append(lines, "end")
+		for i := range lines {
+			lines[i] = fmt.Sprintf("#%d %s", p.opIdx, lines[i])
+		}
+		p.opIdx++
+		s.Op(fmt.Sprintf("c8w %d %s", salt, script), lines...)
 		s.Add("file_ops", len(ops))
 		s.Count("scripts_" + src)
 		// (2) every crash instant — inside a synctest bubble: the reader's 10 ms
@@ -783,6 +937,13 @@ func TestVerifC08(t *testing.T) {
 		script, _, _ := p.genScript(p.r)
 		runCase(script, salt, "gen")
 	}
+	for c := 0; c < vfutil.Scale(1, 6); c++ {
+		salt := p.r.U64() % 1000000
+		p.salt = salt
+		p.big = true
+		runCase(p.genBigScript(p.r), salt, "big")
+		p.big = false
+	}
 	_ = io.EOF
 }
 
@@ -793,7 +954,11 @@ func (p *c08Parent) crashImages(ops []c08Op, script string) {
 		p.reopen(im.clone(), false, "prefix", script)
 		for i, o := range ops {
 			if o.kind == "append" && len(o.data) > 1 {
-				for _, k := range []int{1, len(o.data) / 2, len(o.data) - 1} {
+				cuts := []int{1, len(o.data) / 2, len(o.data) - 1}
+				if p.big {
+					cuts = []int{len(o.data) / 2}
+				}
+				for _, k := range cuts {
 					if k <= 0 || k >= len(o.data) {
 						continue
 					}
@@ -822,6 +987,12 @@ func (p *c08Parent) crashImages(ops []c08Op, script string) {
 				s.Count("alterations")
 			}
 			alter("data", func(c []byte) []byte { c[headerSize+p.r.Intn(len(c)-headerSize)] ^= byte(1 << p.r.Intn(8)); return c })
+			// in the LAST piece of the verification loop (4096-byte reads)
+			alter("data_last_piece", func(c []byte) []byte {
+				tail := (len(c) - headerSize - 1) % 4096
+				c[len(c)-1-p.r.Intn(tail+1)] ^= byte(1 << p.r.Intn(8))
+				return c
+			})
 			alter("size", func(c []byte) []byte {
 				binary.LittleEndian.PutUint32(c[9:], binary.LittleEndian.Uint32(c[9:])+1)
 				return c
@@ -830,7 +1001,184 @@ func (p *c08Parent) crashImages(ops []c08Op, script string) {
 			alter("truncated", func(c []byte) []byte { return c[:len(c)-1] })
 			alter("extended", func(c []byte) []byte { return append(c, 0x5a) })
 		}
+		// (4) alterations of a committed snapshot that carries a checksum footer
+		for name, b := range im {
+			if !strings.HasSuffix(name, ".rdb") || len(b) <= 8 || !c08FooterOk(b) {
+				continue
+			}
+			alterSnap := func(what string, f func(c []byte) []byte) {
+				a := im.clone()
+				a[name] = f(append([]byte(nil), b...))
+				p.alteredSnap = name
+				p.reopenAlt(a, true, "altered_snapshot_"+what, script, -1, -1)
+				p.alteredSnap = ""
+				s.Count("snapshot_alterations")
+			}
+			alterSnap("data", func(c []byte) []byte { c[p.r.Intn(len(c)-8)] ^= byte(1 << p.r.Intn(8)); return c })
+			alterSnap("data_last_piece", func(c []byte) []byte {
+				tail := (len(c) - 8 - 1) % 4096
+				c[len(c)-9-p.r.Intn(tail+1)] ^= byte(1 << p.r.Intn(8))
+				return c
+			})
+			alterSnap("footer", func(c []byte) []byte { c[len(c)-1-p.r.Intn(8)] ^= byte(1 << p.r.Intn(8)); return c })
+		}
+		// (5) files removed in ANY order (DelRunId = os.RemoveAll in readdir order; any
+		// subset of the final image may survive a death during it)
+		var names []string
+		for n := range im {
+			names = append(names, n)
+		}
+		sort.Strings(names)
+		for k := 0; k < 6 && len(names) > 1; k++ {
+			sub := c08Image{}
+			for _, n := range names {
+				if p.r.Bool() {
+					sub[n] = im[n]
+				}
+			}
+			p.reopen(sub, false, "subset", script)
+			p.reopen(sub, true, "subset", script)
+		}
+		// (6) life goes on after the restart: resume the writer, collect, die again
+		p.resume(im.clone(), script)
 	}
+}
+
+// resume re-opens the image, continues the stream where the cache ends, runs
+// the collector with a small limit, and re-opens once more: at every stage every
+// byte served must be the source's byte (monitor only).
+func (p *c08Parent) resume(im c08Image, script string) {
+	p.n++
+	root := filepath.Join(p.tmp, fmt.Sprintf("r%d", p.n))
+	dir := filepath.Join(root, c08RunId)
+	os.MkdirAll(dir, 0o777)
+	for n, b := range im {
+		os.WriteFile(filepath.Join(dir, n), b, 0o666)
+	}
+	defer os.RemoveAll(root)
+	replay := map[string]interface{}{"image": im.String(), "at": "resume", "script": script}
+	check := func(st *Storer, stage string) {
+		l, r := st.GetOffsetRange()
+		if l < 0 || r <= l {
+			return
+		}
+		rl, _ := st.GetRdb()
+		from := l
+		if rl == l && r > l { // a reader at the snapshot offset is a stream reader when a segment starts there
+			from = l
+		}
+		rd, err := st.GetReader(from, false)
+		if err != nil {
+			p.s.Violate("valid-not-readable", fmt.Sprintf("%s: range [%d,%d], GetReader(%d) failed: %v", stage, l, r, from, err), replay)
+			return
+		}
+		if !rd.IsAof() {
+			rd.rdb.Close()
+			rd.Close()
+			return
+		}
+		data, end := c08ReadAll(rd, from, r)
+		rd.aof.Close()
+		rd.Close()
+		if end != "eof" || int64(len(data)) != r-from {
+			p.s.Violate("range-not-contiguous", fmt.Sprintf("%s: range [%d,%d], reading from %d gave %d bytes, end %s", stage, l, r, from, len(data), end), replay)
+		}
+		for k, b := range data {
+			if b != c08Src(p.salt, from+int64(k)) {
+				p.s.Violate("served-wrong-byte", fmt.Sprintf("%s: offset %d served as %02x, the source sent %02x", stage, from+int64(k), b, c08Src(p.salt, from+int64(k))), replay)
+				break
+			}
+		}
+		p.s.Add("mon_bytes_checked", len(data))
+	}
+	logSize := int64(48)
+	st := NewStorer("vf", root, 3*logSize, logSize, config.FlushPolicy{})
+	st.VerifStopCollector()
+	if err := st.SetRunId(c08RunId); err != nil {
+		return
+	}
+	off := st.LatestOffset()
+	if off < 0 {
+		return
+	}
+	w, err := st.GetAofWritter(nil, off)
+	if err != nil {
+		p.s.Violate("resume-failed", err.Error(), replay)
+		return
+	}
+	right := off
+	for i := 0; i < 6; i++ {
+		n := 1 + p.r.Intn(40)
+		if err := w.write(c08SrcSeg(p.salt, right, n)); err != nil {
+			p.s.Violate("resume-failed", err.Error(), replay)
+			return
+		}
+		right += int64(n)
+		if i%2 == 1 {
+			st.VerifGcLog()
+		}
+		check(st, "resumed")
+	}
+	// the disk fails under the resumed writer (descriptor closed underneath it —
+	// stands for EIO): nothing of the chunk is written, and the range must not grow
+	if p.r.Chance(1, 2) {
+		w.file.Close()
+		n := 1 + p.r.Intn(40)
+		if err := w.write(c08SrcSeg(p.salt, right, n)); err != nil {
+			if _, rr := st.GetOffsetRange(); rr != right {
+				p.s.Violate("range-claims-unwritten-bytes", fmt.Sprintf("a write of %d bytes at %d failed (%v), the cache reports its end at %d", n, right, err, rr), replay)
+			}
+			check(st, "after write fault")
+			p.s.Count("aof_write_faults")
+		}
+	}
+	// the process dies again (nothing closed); a third process opens the directory
+	st2 := NewStorer("vf", root, 0, logSize, config.FlushPolicy{})
+	st2.VerifStopCollector()
+	if err := st2.SetRunId(c08RunId); err == nil {
+		check(st2, "second restart")
+		if _, r2 := st2.GetOffsetRange(); r2 != right {
+			p.s.Violate("resume-lost-bytes", fmt.Sprintf("the resumed writer appended up to %d, after the second restart the cache ends at %d", right, r2), replay)
+		}
+		// above the run-id directory: the source continues under a NEW replication id
+		// (the directory is renamed), a further process finds it among several ids,
+		// then the id is deleted: nothing of it may be served any more
+		if p.r.Chance(1, 2) {
+			newId := c08RunId + "b"
+			if err := st2.SetRunId(newId); err != nil {
+				p.s.Violate("resume-failed", "SetRunId(new id): "+err.Error(), replay)
+			} else {
+				check(st2, "renamed id")
+				if _, r3 := st2.GetOffsetRange(); r3 != right {
+					p.s.Violate("resume-lost-bytes", fmt.Sprintf("after the id change the cache ends at %d, it held bytes up to %d", r3, right), replay)
+				}
+				st3 := NewStorer("vf", root, 0, logSize, config.FlushPolicy{})
+				st3.VerifStopCollector()
+				if off3, err := st3.VerifyRunId([]string{c08RunId, "?", newId}); err == nil {
+					check(st3, "third restart")
+					if off3 != right {
+						p.s.Violate("resume-lost-bytes", fmt.Sprintf("VerifyRunId finds the renamed cache ending at %d, it held bytes up to %d", off3, right), replay)
+					}
+				}
+				st3.DelRunId(newId)
+				for _, id := range []string{c08RunId, newId} {
+					st4 := NewStorer("vf", root, 0, logSize, config.FlushPolicy{})
+					st4.VerifStopCollector()
+					if err := st4.SetRunId(id); err != nil {
+						continue
+					}
+					l4, r4 := st4.GetOffsetRange()
+					rl4, rs4 := st4.GetRdb()
+					if r4 > l4 || rl4 >= 0 {
+						p.s.Violate("deleted-cache-served", fmt.Sprintf("after DelRunId a fresh process opening id %s finds range [%d,%d] snapshot (%d,%d)", id, l4, r4, rl4, rs4), replay)
+					}
+				}
+				p.s.Count("id_changes")
+			}
+		}
+	}
+	w.Close()
+	p.s.Count("resumed_images")
 }
 
 // c08ScanSnaps finds the snapshots a script writes completely.
